@@ -392,29 +392,26 @@ structure Server where
   services : Randomize.Model
   chain : Randomize.Model → Nat → Request → Option Reply
 
-def respond (s : Server) (w : World) (st : State) (req : Request) : Option Reply × State × List Segment :=
+/-- `default_response_if_none`: a request no handler answers gets generalReject -/
+def finalReply (req : Request) : Option Reply → Reply
+  | some r => r
+  | none => .neg (match req with | .other sid => sid | _ => 0) nrcGeneralReject
+
+def respond (s : Server) (w : World) (st : State) (req : Request) : Reply × State × List Segment :=
   match s.chain s.services st.session req with
-  | some r => (some r, updateState st r, [])
+  | some r => (r, updateState st r, [])
   | none =>
     let o := respondAfterDefault s.cfg w st req
-    match o.reply with
-    | some r => (some r, updateState o.st r, o.trace)
-    | none => (some (.neg (match req with | .other sid => sid | _ => 0) nrcGeneralReject),
-               updateState o.st (.neg 0 nrcGeneralReject), o.trace)
-
-/-- history items as the transcripts use them: a request, or "unlock": RequestSeed(t-1) followed by SendKey(t) with the
-    seed just received as key (only the SendKey answer is observed) -/
-inductive Item
-  | req (r : Request)
-  | unlock (t : Nat)
-deriving DecidableEq, Repr
+    let r := finalReply req o.reply
+    (r, updateState o.st r, o.trace)
 
 /-- the answer with the deliberately fresh content masked (`67 <odd> *` in the transcripts) -/
-def mask : Option Reply → Option Reply
-  | some (.saSeed t _) => some (.saSeed t [])
+def mask : Reply → Reply
+  | .saSeed t _ => .saSeed t []
   | r => r
 
-/-- per-request worlds: the seeded oracle is one function for the whole run, `fresh` and `ambient` change per request -/
+/-- per-request worlds: the seeded oracle is one function for the whole run (Mersenne Twister is a function of the
+    seed text), `fresh` and `ambient` may be anything at every request -/
 structure Env where
   rngOf : String → DrawStream
   fresh : Nat → DrawStream
@@ -422,23 +419,16 @@ structure Env where
 
 def Env.at (e : Env) (i : Nat) : World := ⟨e.rngOf, e.fresh i, e.ambient i⟩
 
-def stepItem (s : Server) (e : Env) (i : Nat) (st : State) : Item → Option Reply × State
-  | .req r => let (a, st1, _) := respond s (e.at i) st r; (mask a, st1)
-  | .unlock t =>
-    let (a, st1, _) := respond s (e.at i) st (.requestSeed (t - 1))
-    let key := match a with | some (.saSeed _ sd) => sd | _ => []
-    let (b, st2, _) := respond s (e.at i) st1 (.sendKey t key)
-    (b, st2)
-
-/-- the masked answers to a history, from state `st`, request numbers from `i` -/
-def runFrom (s : Server) (e : Env) : Nat → State → List Item → List (Option Reply) × State
+/-- the masked answers to a request history from state `st`, request numbers from `i` -/
+def runFrom (s : Server) (e : Env) : Nat → State → List Request → List Reply × State
   | _, st, [] => ([], st)
-  | i, st, it :: rest =>
-    let (a, st1) := stepItem s e i st it
+  | i, st, req :: rest =>
+    let (a, st1, _) := respond s (e.at i) st req
     let (as, st2) := runFrom s e (i + 1) st1 rest
-    (a :: as, st2)
+    (mask a :: as, st2)
 
-def run (s : Server) (e : Env) (h : List Item) : List (Option Reply) × State := runFrom s e 0 {} h
+/-- a freshly started virtual ECU (default session, nothing pending) answering a history -/
+def run (s : Server) (e : Env) (h : List Request) : List Reply × State := runFrom s e 0 {} h
 
 /-- the virtual ECU of a seed: model from `randomize` over the streams of `random.Random(str(seed))`, handlers over
     the same seed -/
